@@ -297,11 +297,21 @@ class ThreeQubitDiagonalGate(raw_types.Gate):
         """
 
         a, b, c = qubits
+        angles = list(self._diag_angles_radians)
         if hasattr(b, 'is_adjacent'):
+            # Reordering the qubits is only valid if the diagonal is relabeled accordingly:
+            # `order[k]` is the position in `qubits` of the k-th qubit of (a, b, c).
+            order = [0, 1, 2]
             if not b.is_adjacent(a):
                 b, c = c, b
+                order = [0, 2, 1]
             elif not b.is_adjacent(c):
                 a, b = b, a
+                order = [1, 0, 2]
+            angles = [
+                angles[sum(((i >> (2 - k)) & 1) << (2 - order[k]) for k in range(3))]
+                for i in range(8)
+            ]
         sweep_abc = [common_gates.CNOT(a, b), common_gates.CNOT(b, c)]
         phase_matrix_inverse = 0.25 * np.array(
             [
@@ -314,12 +324,10 @@ class ThreeQubitDiagonalGate(raw_types.Gate):
                 [1, 1, -1, -1, 1, 1, -1],
             ]
         )
-        shifted_angles_tail = [
-            angle - self._diag_angles_radians[0] for angle in self._diag_angles_radians[1:]
-        ]
+        shifted_angles_tail = [angle - angles[0] for angle in angles[1:]]
         phase_solutions = phase_matrix_inverse.dot(shifted_angles_tail)
         p_gates = [pauli_gates.Z ** (solution / np.pi) for solution in phase_solutions]
-        global_phase = 1j ** (2 * self._diag_angles_radians[0] / np.pi)
+        global_phase = 1j ** (2 * angles[0] / np.pi)
         global_phase_operation = (
             [global_phase_op.global_phase_operation(global_phase)]
             if protocols.is_parameterized(global_phase) or abs(global_phase - 1.0) > 0
